@@ -136,6 +136,14 @@ var props = map[string]*propSpec{
 		QuickBudget:    50 * time.Second,
 		ThoroughBudget: 15 * time.Minute,
 	},
+	"C11": {
+		Level: "exploration",
+		Rule: "family matrix: the 17 cells of {client: enabled, disabled, legacy} x {server: enabled, disabled, legacy} x {forward, reverse} that involve this library (legacy ends are revision-zero raw peers that never advertise negotiation) are drawn uniformly, each with all four RPC shapes under a random schedule and carrier capacity; family settings: a raw tunnel server presents one of 20 settings variants (revision lists incl. empty / unknown / duplicate / reordered, windows 0 / 1 / 2^32-1, wrong stream id, a different or empty first frame, end of stream, silence with a deadline) to a client with flow control enabled or disabled, forward and reverse, then serves an RPC; the revision rules of the wire monitor run on every frame of every family; " +
+			"non-trivial = the cell / variant ran to its end; distinct = distinct schedule digests; the configuration matrix and the variant list are finite and every element is drawn many times per run of the check (counts in runs_by_config), schedules are sampled",
+		Families:       []famPlan{{Family: "matrix", Weight: 2}, {Family: "settings", Weight: 2}, {Family: "msgflow", Weight: 1}},
+		QuickBudget:    45 * time.Second,
+		ThoroughBudget: 12 * time.Minute,
+	},
 	"C13": {
 		Level:          "exploration",
 		Rule:           "every frame of every run is fed to the protocol monitor (appendix A of DESIGN.md); non-trivial = the run carried at least 20 frames; distinct = distinct schedule digests",
